@@ -55,8 +55,8 @@ Definition vol_db (v : list Z) (l : option (listener f32)) (tab64 : list (Z * Z 
   end.
 
 Definition zero_plus (fr : f32 * f32) : f32 * f32 := (add32 (Z32 0) (fst fr), add32 (Z32 0) (snd fr)).
-(** the renderer's [clamp(-1.0, 1.0)] *)
-Definition out_clamp (x : f32) : f32 := clamp32 x (Z32 (-1)) (Z32 1).
+(** the renderer's output stage, [finite_clamped]: NaN -> 0.0, everything else [clamp(-1.0, 1.0)] *)
+Definition out_clamp (x : f32) : f32 := if isnan32 x then Z32 0 else clamp32 x (Z32 (-1)) (Z32 1).
 
 Definition run_spat (k cfg inp lst em : list Z) (i n : Z) (pre post : list Z) (tab64 tab32 : list (Z * Z * Z))
   : outcome (f32 * f32) :=
